@@ -20,6 +20,7 @@ let () =
   Ad_castertrace.init ();
   Ad_notiftrace.init ();
   Ad_excltrace.init ();
+  Ad_pubsubtrace.init ();
   let fn_cases = ref 0 and fn_bad = ref 0 in
   let file = Sys.argv.(1) in
   let ic = open_in file in
